@@ -75,25 +75,28 @@ let check_line (line : string) : unit =
       let created = ref [] in
       let stop = ref false in
       List.iteri (fun i o ->
-          if not !stop then begin
+          begin
             incr n_steps;
-            let w0 = !w in
-            let (w1, out) = step w0 o in
-            w := w1;
-            let m = Printf.sprintf "%s|%s|%s" (outcome_str out) (probe_str w1) (ledger_str w1) in
             let r = try List.nth reals i with _ -> "?" in
-            (match out with
-             | OPanic k -> bump ("outcome:panic:" ^ outcome_str (OPanic k))
-             | OGuard _ -> bump "outcome:guard" | ONone -> bump "outcome:none" | _ -> bump "outcome:ok");
-            if m <> r then begin
-              let mf = split_on '|' m and rf = split_on '|' r in
-              let field = match mf, rf with
-                | a :: _, b :: _ when a <> b -> "outcome"
-                | _ :: a :: _, _ :: b :: _ when a <> b -> "probe"
-                | _ -> "ledger" in
-              disagree field i m r; stop := true
+            (* ---- correspondence with the model, up to the first disagreement ---- *)
+            if not !stop then begin
+              let w0 = !w in
+              let (w1, out) = step w0 o in
+              w := w1;
+              let m = Printf.sprintf "%s|%s|%s" (outcome_str out) (probe_str w1) (ledger_str w1) in
+              (match out with
+               | OPanic k -> bump ("outcome:panic:" ^ outcome_str (OPanic k))
+               | OGuard _ -> bump "outcome:guard" | ONone -> bump "outcome:none" | _ -> bump "outcome:ok");
+              if m <> r then begin
+                let mf = split_on '|' m and rf = split_on '|' r in
+                let field = match mf, rf with
+                  | a :: _, b :: _ when a <> b -> "outcome"
+                  | _ :: a :: _, _ :: b :: _ when a <> b -> "probe"
+                  | _ -> "ledger" in
+                disagree field i m r; stop := true
+              end
             end;
-            (* ---- oracles on the REAL observation ---- *)
+            (* ---- oracles on the REAL observation (they need no model state: they go on after a disagreement) ---- *)
             let rf = split_on '|' r in
             (match rf with
              | rout :: rprobe :: _ ->
@@ -121,7 +124,17 @@ let check_line (line : string) : unit =
                     try List.nth (split_on ',' prev) idx with _ -> "-" in
                   match o with
                   | OHas k -> if (rout = "b1") <> (cell_before k <> "-") && prev <> "" then oracle "presence_agrees" i
-                  | OGetMut k -> if rout <> "pe" && prev <> "" && ((rout = "n") <> (cell_before k = "-")) then oracle "presence_agrees" i
+                  | OGetMut k ->
+                      if rout <> "pe" && prev <> "" && ((rout = "n") <> (cell_before k = "-")) then oracle "presence_agrees" i;
+                      (* C09: what get_mut / get_mut_raw hand out IS the stored value: its type is the type named by the id and
+                         its payload the one the probe showed *)
+                      if String.length rout > 1 && rout.[0] = 'v' && prev <> "" then begin
+                        match split_on '.' (String.sub rout 1 (String.length rout - 1)), split_on ':' (cell_before k) with
+                        | [t; p], [_; sp] ->
+                            let pay = (match split_on '.' sp with [_; x] -> x | _ -> "?") in
+                            if int_of_string t <> int_of_n (fst k) || p <> pay then oracle "get_mut_identity" i
+                        | _ -> oracle "get_mut_identity" i
+                      end
                   | OFetchOp (_, ty, k) when ty = fst k && prev <> "" ->
                       let there = cell_before k <> "-" in
                       if (rout = "n" && there) || (String.length rout > 0 && rout.[0] = 'g' && not there) || (rout = "px" && there)
@@ -158,7 +171,7 @@ let check_line (line : string) : unit =
              | _ -> ())
           end) ops;
       (* teardown: every created object dropped exactly once *)
-      if not !stop then begin
+      begin
         let last = try List.nth reals (List.length ops) with _ -> "" in
         (match split_on '|' last with
          | ["end"; led] ->
